@@ -248,6 +248,7 @@ Proof.
   unfold wf_entry, entry_of. cbn [e_path e_idx e_props].
   rewrite Hpath, Hpl, Hps. rewrite !andb_true_r. cbn [andb].
   destruct o as [ps|g ps|g c dt vs ps]; cbn [idx_of obj_values]; try (repeat split; reflexivity).
+  unfold wf_chan_part in Hch.
   apply andb_prop in Hch. destruct Hch as [Hch Hst].
   apply andb_prop in Hch. destruct Hch as [Hch Hn].
   apply andb_prop in Hch. destruct Hch as [Hty Hgp].
@@ -332,10 +333,15 @@ Proof. vm_compute. reflexivity. Qed.
 Lemma wf_obj_group_nil g : is_u32 (blen (group_path g)) = true -> wf_obj (WGroup g []) = true.
 Proof. intros H. unfold wf_obj. cbn [obj_path obj_props]. rewrite H. reflexivity. Qed.
 
+Lemma wf_obj_chan_part o : wf_obj o = true -> wf_chan_part o = true.
+Proof.
+  intros H. unfold wf_obj in H. apply andb_prop in H. destruct H as [_ H]. exact H.
+Qed.
+
 Lemma wf_obj_chan_group g c dt vs ps :
   wf_obj (WChan g c dt vs ps) = true -> is_u32 (blen (group_path g)) = true.
 Proof.
-  intros H. unfold wf_obj in H. apply andb_prop in H. destruct H as [_ H].
+  intros H. apply wf_obj_chan_part in H. unfold wf_chan_part in H.
   apply andb_prop in H. destruct H as [H _]. apply andb_prop in H. destruct H as [H _].
   apply andb_prop in H. destruct H as [_ H]. exact H.
 Qed.
@@ -359,6 +365,361 @@ Lemma wf_sorted st objs sorted st' :
   forallb wf_obj sorted = true.
 Proof.
   intros Ho Hwf. destruct (wr_objects_spec _ _ _ _ Ho) as [-> _].
-  apply forallb_forall. intros o Hin. apply in_partition3 in Hin.
+  apply forallb_forall. intros o Hin. apply (proj1 (in_partition3 _ _)) in Hin.
   pose proof (wf_pairs st objs Hwf) as Hp. rewrite forallb_forall in Hp. apply Hp. exact Hin.
+Qed.
+
+(* ---- the planned syntax passes every check of the strict parser ------------------------------ *)
+
+Lemma sized_tds_size dt k : sized_type dt = Some k -> tds_size dt = Some (Some k).
+Proof.
+  unfold sized_type. destruct (has_nptype dt || (dt =? T_TIME)); [|discriminate].
+  destruct (tds_size dt) as [[k'|]|]; try discriminate. intros H. injection H as ->. reflexivity.
+Qed.
+
+Lemma obj_data_size_idx o a :
+  wf_obj o = true -> obj_data_size o = Ok a -> idx_raw_size (idx_of o) = a.
+Proof.
+  intros Hwf. apply wf_obj_chan_part in Hwf.
+  destruct o as [ps|g ps|g c dt vs ps]; cbn [obj_data_size idx_of idx_raw_size];
+    try (intros H; injection H as <-; reflexivity).
+  unfold wf_chan_part in Hwf.
+  apply andb_prop in Hwf. destruct Hwf as [Hwf _]. apply andb_prop in Hwf. destruct Hwf as [Hwf _].
+  apply andb_prop in Hwf. destruct Hwf as [Hty _]. unfold chan_type_ok in Hty.
+  destruct (dt =? T_VOID) eqn:Ev; [intros H; injection H as <-; reflexivity|].
+  cbn [idx_raw_size]. destruct (dt =? T_STRING) eqn:Es; [intros H; injection H as <-; reflexivity|].
+  destruct (sized_type dt) as [k|] eqn:Ek; [|discriminate].
+  rewrite (sized_tds_size dt k Ek). intros H. injection H as <-. reflexivity.
+Qed.
+
+Lemma data_size_raw_size l : forall dsize,
+  forallb wf_obj l = true -> data_size l = Ok dsize -> raw_size (map entry_of l) = dsize.
+Proof.
+  induction l as [|o r IH]; intros dsize Hwf H.
+  - cbn in H. injection H as <-. reflexivity.
+  - cbn [forallb] in Hwf. apply andb_prop in Hwf. destruct Hwf as [Ho Hr].
+    cbn [data_size] in H.
+    destruct (obj_data_size o) as [a|e] eqn:Ea; cbn [bind] in H; [|discriminate].
+    destruct (data_size r) as [b|e] eqn:Eb; cbn [bind] in H; [|discriminate].
+    injection H as <-. cbn [map raw_size e_idx entry_of].
+    rewrite (obj_data_size_idx o a Ho Ea), (IH b Hr eq_refl). reflexivity.
+Qed.
+
+Lemma order_ok_app D a b :
+  order_ok D (a ++ b) = order_ok D a && order_ok (rev (map e_path a) ++ D) b.
+Proof.
+  revert D. induction a as [|x a IH]; intros D; cbn [app order_ok map rev].
+  - reflexivity.
+  - rewrite IH, <- app_assoc. cbn [app]. rewrite andb_assoc. reflexivity.
+Qed.
+
+Lemma order_ok_nonchan l : forall D,
+  (forall o, In o l -> is_chan o = false) -> order_ok D (map entry_of l) = true.
+Proof.
+  induction l as [|o r IH]; intros D H; [reflexivity|].
+  cbn [map order_ok e_path entry_of].
+  rewrite IH by (intros o' Ho'; apply H; right; exact Ho').
+  pose proof (H o (or_introl eq_refl)) as Ho.
+  destruct o as [ps|g ps|g c dt vs ps]; cbn [obj_path].
+  - rewrite classify_root. reflexivity.
+  - rewrite classify_group. reflexivity.
+  - discriminate Ho.
+Qed.
+
+Lemma bmem_cons_mono x p D : bmem x D = true -> bmem x (p :: D) = true.
+Proof. intros H. unfold bmem in *. cbn [existsb]. rewrite H. apply orb_true_r. Qed.
+
+Definition chan_group_in (D : list bytes) (o : wobj) : Prop :=
+  match o with
+  | WChan g _ _ _ _ => bmem (group_path g) D = true
+  | _ => True
+  end.
+
+Lemma order_ok_chans l : forall D,
+  (forall o, In o l -> chan_group_in D o) -> order_ok D (map entry_of l) = true.
+Proof.
+  induction l as [|o r IH]; intros D H; [reflexivity|].
+  cbn [map order_ok e_path entry_of].
+  rewrite IH.
+  - pose proof (H o (or_introl eq_refl)) as Ho.
+    destruct o as [ps|g ps|g c dt vs ps]; cbn [obj_path].
+    + rewrite classify_root. reflexivity.
+    + rewrite classify_group. reflexivity.
+    + rewrite classify_chan. cbn [chan_group_in] in Ho. rewrite Ho. reflexivity.
+  - intros o' Ho'. specialize (H o' (or_intror Ho')).
+    destruct o'; cbn [chan_group_in] in *; try exact I. apply bmem_cons_mono. exact H.
+Qed.
+
+Definition inv (st : wstate) (D : list bytes) : Prop :=
+  forall g, bmem g (groups_written st) = true -> bmem (group_path g) D = true.
+
+Lemma in_pairs_objs st objs o : In o objs -> In o (pairs_of st objs).
+Proof. intros H. unfold pairs_of. apply in_or_app. left. exact H. Qed.
+
+Lemma in_pairs_added st objs g :
+  In g (groups_to_add st objs) -> In (WGroup g []) (pairs_of st objs).
+Proof.
+  intros H. unfold pairs_of. apply in_or_app. right. apply in_or_app. right.
+  apply in_map_iff. exists g. split; [reflexivity|exact H].
+Qed.
+
+Lemma chan_in_pairs st objs g c dt vs ps :
+  In (WChan g c dt vs ps) (pairs_of st objs) -> In (WChan g c dt vs ps) objs.
+Proof.
+  unfold pairs_of. intros H. apply in_app_or in H. destruct H as [H|H]; [exact H|].
+  apply in_app_or in H. destruct H as [H|H].
+  - destruct (negb (root_written st) && negb (existsb is_root objs)); cbn in H;
+      [destruct H as [H|[]]; discriminate H|contradiction].
+  - apply in_map_iff in H. destruct H as [g' [H _]]. discriminate H.
+Qed.
+
+(* paths of the non-channel part of the sorted list *)
+Definition nonchan (l : list wobj) : list wobj := filter is_root l ++ filter is_group l.
+
+Lemma partition3_nonchan l : partition3 l = nonchan l ++ filter is_chan l.
+Proof. unfold partition3, nonchan. rewrite app_assoc. reflexivity. Qed.
+
+Lemma group_in_nonchan l g ps :
+  In (WGroup g ps) l -> In (group_path g) (map obj_path (nonchan l)).
+Proof.
+  intros H. apply in_map_iff. exists (WGroup g ps). split; [reflexivity|].
+  unfold nonchan. apply in_or_app. right. apply filter_In. split; [exact H|reflexivity].
+Qed.
+
+Lemma group_decl st objs D g :
+  inv st D -> In g (groups_required objs) ->
+  bmem (group_path g) (rev (map obj_path (nonchan (pairs_of st objs))) ++ D) = true.
+Proof.
+  intros Hinv Hreq. rewrite bmem_app.
+  destruct (bmem g (groups_included objs)) eqn:Einc.
+  - apply bmem_In in Einc. apply in_groups_included in Einc. destruct Einc as [ps Hin].
+    apply orb_true_intro. left. apply bmem_In. apply -> in_rev.
+    apply (group_in_nonchan _ g ps). apply in_pairs_objs. exact Hin.
+  - destruct (bmem g (groups_written st)) eqn:Ew.
+    + apply orb_true_intro. right. apply Hinv. exact Ew.
+    + apply orb_true_intro. left. apply bmem_In. apply -> in_rev.
+      apply (group_in_nonchan _ g []). apply in_pairs_added.
+      apply in_groups_to_add. repeat split; assumption.
+Qed.
+
+Lemma root_in_pairs st objs :
+  root_written st = false -> exists ps, In (WRoot ps) (pairs_of st objs).
+Proof.
+  intros Hr. destruct (existsb is_root objs) eqn:E.
+  - apply existsb_exists in E. destruct E as [o [Ho Hk]].
+    destruct o as [ps| |]; try discriminate Hk. exists ps. apply in_pairs_objs. exact Ho.
+  - exists []. unfold pairs_of. rewrite Hr, E. cbn [negb andb].
+    apply in_or_app. right. left. reflexivity.
+Qed.
+
+Lemma toc_ok_writer : toc_ok TOC_WRITER = true.
+Proof. vm_compute. reflexivity. Qed.
+
+Lemma toc_raw_writer : toc_has TOC_WRITER TOC_RAW = true.
+Proof. vm_compute. reflexivity. Qed.
+
+Lemma call_seg_ok v st objs sorted st' s first D :
+  valid_version v = true ->
+  forallb wf_obj objs = true ->
+  wr_objects st objs = Ok (sorted, st') ->
+  syntax_of_objs v sorted = Ok s ->
+  (first = true -> root_written st = false) ->
+  inv st D ->
+  seg_ok first D s = true /\ inv st' (rev (map e_path (sg_entries s)) ++ D) /\
+  root_written st' = true.
+Proof.
+  intros Hv Hwf Ho Hs Hfirst Hinv.
+  pose proof (wf_sorted _ _ _ _ Ho Hwf) as Hws.
+  destruct (wr_objects_spec _ _ _ _ Ho) as [Hsorted [Hdup Hst']].
+  unfold syntax_of_objs in Hs. rewrite mapM_wr_entry in Hs. cbn [bind] in Hs.
+  destruct (data_size sorted) as [dsize|e] eqn:Ed; cbn [bind] in Hs; [|discriminate].
+  injection Hs as <-.
+  pose proof (data_size_raw_size sorted dsize Hws Ed) as Hrs.
+  destruct (forall_entries sorted Hws) as [_ [_ Hidx]].
+  split; [|split].
+  - unfold seg_ok. cbn [sg_leadin sg_entries sg_values l_tag l_toc l_version l_next l_raw].
+    rewrite toc_writer_le, toc_ok_writer, toc_raw_writer, bytes_eqb_refl, Hidx, Hrs.
+    rewrite map_path_entries, Hdup, !Z.eqb_refl.
+    unfold valid_version in Hv. unfold version_ok. rewrite Hv. cbn [andb orb negb].
+    apply andb_true_intro. split.
+    + (* order *)
+      rewrite Hsorted, partition3_nonchan, map_app, order_ok_app.
+      apply andb_true_intro. split.
+      * apply order_ok_nonchan. intros o Hin. unfold nonchan in Hin.
+        apply in_app_or in Hin. destruct Hin as [Hin|Hin]; apply filter_In in Hin;
+          destruct Hin as [_ Hk]; destruct o; try discriminate Hk; reflexivity.
+      * apply order_ok_chans. intros o Hin. apply filter_In in Hin. destruct Hin as [Hin _].
+        destruct o as [ps|g ps|g c dt vs ps]; cbn [chan_group_in]; try exact I.
+        rewrite map_path_entries. apply group_decl; [exact Hinv|].
+        apply in_groups_required. exists c, dt, vs, ps. eapply chan_in_pairs. exact Hin.
+    + (* root *)
+      destruct first; [|reflexivity]. cbn [negb orb].
+      destruct (root_in_pairs st objs (Hfirst eq_refl)) as [ps Hin].
+      apply bmem_In. rewrite Hsorted. apply in_map_iff. exists (WRoot ps).
+      split; [reflexivity|]. apply in_partition3. exact Hin.
+  - (* invariant *)
+    cbn [sg_entries]. rewrite map_path_entries. intros g Hg. rewrite Hst' in Hg.
+    cbn [groups_written] in Hg. rewrite !bmem_app in Hg. rewrite bmem_app.
+    assert (Hsub : forall ps, In (WGroup g ps) (pairs_of st objs) ->
+                   bmem (group_path g) (rev (map obj_path sorted)) = true).
+    { intros ps Hin. apply bmem_In. apply -> in_rev. apply in_map_iff. exists (WGroup g ps).
+      split; [reflexivity|]. rewrite Hsorted. apply in_partition3. exact Hin. }
+    destruct (bmem g (groups_written st)) eqn:E1.
+    + rewrite (Hinv g E1). apply orb_true_r.
+    + destruct (bmem g (groups_included objs)) eqn:E2.
+      * apply bmem_In in E2. apply in_groups_included in E2. destruct E2 as [ps Hin].
+        rewrite (Hsub ps (in_pairs_objs st objs _ Hin)). reflexivity.
+      * cbn [orb] in Hg. apply bmem_In in Hg.
+        rewrite (Hsub [] (in_pairs_added st objs g Hg)). reflexivity.
+  - rewrite Hst'. reflexivity.
+Qed.
+
+(* ---- all calls, all sessions -------------------------------------------------------------------- *)
+
+Definition declared_after (D : list bytes) (segs : list segsyn) : list bytes :=
+  fold_left (fun D s => rev (map e_path (sg_entries s)) ++ D) segs D.
+
+Definition first_after (first : bool) (segs : list segsyn) : bool :=
+  match segs with [] => first | _ :: _ => false end.
+
+Lemma first_after_false segs : first_after false segs = false.
+Proof. destruct segs; reflexivity. Qed.
+
+Lemma segs_ok_app : forall a first D b,
+  segs_ok first D (a ++ b) =
+  segs_ok first D a && segs_ok (first_after first a) (declared_after D a) b.
+Proof.
+  induction a as [|s a IH]; intros first D b; cbn [app segs_ok first_after declared_after fold_left].
+  - reflexivity.
+  - rewrite IH, first_after_false. rewrite andb_assoc. reflexivity.
+Qed.
+
+Lemma wf_leadin_writer v n r :
+  valid_version v = true -> is_u64 n = true -> is_u64 r = true ->
+  wf_leadin (mkLeadin TAG_DATA TOC_WRITER v n r) = true.
+Proof.
+  intros Hv Hn Hr. unfold wf_leadin. cbn [l_tag l_toc l_version l_next l_raw].
+  rewrite Hn, Hr. unfold valid_version in Hv.
+  assert (Hi : is_i32 v = true) by (unfold is_i32; lia). rewrite Hi. reflexivity.
+Qed.
+
+Lemma call_seg_wf v st objs sorted st' s :
+  valid_version v = true ->
+  forallb wf_obj objs = true ->
+  wr_objects st objs = Ok (sorted, st') ->
+  syntax_of_objs v sorted = Ok s ->
+  implb (seg_sizes_ok s) (seg_wf s) = true.
+Proof.
+  intros Hv Hwf Ho Hs.
+  pose proof (wf_sorted _ _ _ _ Ho Hwf) as Hws.
+  unfold syntax_of_objs in Hs. rewrite mapM_wr_entry in Hs. cbn [bind] in Hs.
+  destruct (data_size sorted) as [dsize|e] eqn:Ed; cbn [bind] in Hs; [|discriminate].
+  remember (blen (ser_metadata LE (map entry_of sorted))) as m eqn:Hm in Hs.
+  remember (m + dsize) as nx eqn:Hnx in Hs.
+  injection Hs as <-.
+  destruct (forall_entries sorted Hws) as [He [Hvw _]].
+  unfold seg_sizes_ok, seg_wf. cbn [sg_leadin sg_entries sg_values l_next l_raw l_toc].
+  destruct (len_u32 (map entry_of sorted)) eqn:E1; [|reflexivity].
+  destruct (is_u64 nx) eqn:E2; [|reflexivity].
+  destruct (is_u64 m) eqn:E3; [|reflexivity].
+  cbn [andb implb].
+  rewrite (wf_leadin_writer v _ _ Hv E2 E3). unfold wf_metadata. rewrite E1, He, Hvw.
+  reflexivity.
+Qed.
+
+Lemma calls_ok v : forall calls st first D segs,
+  valid_version v = true ->
+  forallb (forallb wf_obj) calls = true ->
+  syntax_of_calls_from v st calls = Ok segs ->
+  (first = true -> root_written st = false) ->
+  inv st D ->
+  segs_ok first D segs = true /\
+  forallb (fun s => implb (seg_sizes_ok s) (seg_wf s)) segs = true.
+Proof.
+  induction calls as [|objs r IH]; intros st first D segs Hv Hwf Hs Hfirst Hinv.
+  - cbn in Hs. injection Hs as <-. split; reflexivity.
+  - cbn [forallb] in Hwf. apply andb_prop in Hwf. destruct Hwf as [Hwo Hwr].
+    cbn [syntax_of_calls_from] in Hs.
+    destruct (wr_objects st objs) as [[sorted st']|e] eqn:Eo; cbn [bind] in Hs; [|discriminate].
+    destruct (syntax_of_objs v sorted) as [s|e] eqn:Es; cbn [bind] in Hs; [|discriminate].
+    destruct (syntax_of_calls_from v st' r) as [ss|e] eqn:Er; cbn [bind] in Hs; [|discriminate].
+    injection Hs as <-.
+    destruct (call_seg_ok v st objs sorted st' s first D Hv Hwo Eo Es Hfirst Hinv)
+      as [Hok [Hinv' Hrw]].
+    pose proof (call_seg_wf v st objs sorted st' s Hv Hwo Eo Es) as Hsw.
+    destruct (IH st' false _ ss Hv Hwr Er (fun H => False_ind _ (Bool.diff_false_true H)) Hinv')
+      as [Hoks Hwfs].
+    cbn [segs_ok forallb]. rewrite Hok, Hoks, Hsw, Hwfs. split; reflexivity.
+Qed.
+
+Lemma inv_init D : inv w_init D.
+Proof. intros g H. cbn in H. discriminate H. Qed.
+
+Lemma file_ok : forall sessions first D segs,
+  forallb (fun s => valid_version (fst s)) sessions = true ->
+  forallb (fun s => forallb (forallb wf_obj) (snd s)) sessions = true ->
+  syntax_of_file sessions = Ok segs ->
+  segs_ok first D segs = true /\
+  forallb (fun s => implb (seg_sizes_ok s) (seg_wf s)) segs = true.
+Proof.
+  induction sessions as [|[v calls] r IH]; intros first D segs Hv Hwf Hs.
+  - cbn in Hs. injection Hs as <-. split; reflexivity.
+  - cbn [forallb fst snd] in Hv, Hwf.
+    apply andb_prop in Hv. destruct Hv as [Hv Hvr].
+    apply andb_prop in Hwf. destruct Hwf as [Hw Hwr].
+    cbn [syntax_of_file] in Hs. unfold syntax_of_calls in Hs.
+    destruct (syntax_of_calls_from v w_init calls) as [a|e] eqn:Ea; cbn [bind] in Hs; [|discriminate].
+    destruct (syntax_of_file r) as [b|e] eqn:Eb; cbn [bind] in Hs; [|discriminate].
+    injection Hs as <-.
+    destruct (calls_ok v calls w_init first D a Hv Hw Ea (fun _ => eq_refl) (inv_init D))
+      as [Ha Hwa].
+    destruct (IH (first_after first a) (declared_after D a) b Hvr Hwr eq_refl) as [Hb Hwb].
+    rewrite segs_ok_app, Ha, Hb, forallb_app, Hwa, Hwb. split; reflexivity.
+Qed.
+
+Lemma wr_file_versions : forall sessions d i,
+  wr_file sessions = Ok (d, i) -> forallb (fun s => valid_version (fst s)) sessions = true.
+Proof.
+  induction sessions as [|[v calls] r IH]; intros d i H; [reflexivity|].
+  unfold wr_file in H. cbn [wr_file_gen] in H. unfold wr_session_gen in H.
+  destruct (valid_version v) eqn:Ev; [|discriminate].
+  destruct (wr_calls true v w_init calls) as [[d1 i1]|e]; cbn [bind] in H; [|discriminate].
+  fold wr_file in H. destruct (wr_file r) as [[d2 i2]|e] eqn:Er; cbn [bind] in H; [|discriminate].
+  cbn [forallb fst]. rewrite Ev, (IH d2 i2 eq_refl). reflexivity.
+Qed.
+
+Lemma forallb_implb {A} (p q : A -> bool) l :
+  forallb (fun x => implb (p x) (q x)) l = true -> forallb p l = true -> forallb q l = true.
+Proof.
+  induction l as [|x l IH]; intros H1 H2; [reflexivity|].
+  cbn [forallb] in *. apply andb_prop in H1. destruct H1 as [Hx Hl].
+  apply andb_prop in H2. destruct H2 as [Px Pl]. rewrite Px in Hx. cbn [implb] in Hx.
+  rewrite Hx, (IH Hl Pl). reflexivity.
+Qed.
+
+(* The main theorem: what the writer wrote strict-parses to exactly the syntax
+   the calls describe, every structural clause holds, and the index file is the
+   positional strip of the data file. *)
+Theorem writer_file_valid : forall sessions data index,
+  wf_file sessions = true ->
+  wr_file sessions = Ok (data, index) ->
+  exists segs,
+    syntax_of_file sessions = Ok segs /\
+    strict_parse data = Some segs /\
+    segs_ok true [] segs = true /\
+    forallb seg_wf segs = true /\
+    data = flat_map ser_segment segs /\
+    index = flat_map ser_index_segment segs /\
+    strip_raw_and_retag data = Some index.
+Proof.
+  intros sessions data index Hwf Hwr.
+  destruct (file_syntax sessions data index Hwr) as [segs [Hs [Hd Hi]]].
+  exists segs. unfold wf_file in Hwf. rewrite Hs in Hwf.
+  apply andb_prop in Hwf. destruct Hwf as [Hobjs Hsizes].
+  pose proof (wr_file_versions sessions data index Hwr) as Hv.
+  destruct (file_ok sessions true [] segs Hv Hobjs Hs) as [Hok Himp].
+  pose proof (forallb_implb _ _ _ Himp Hsizes) as Hsw.
+  repeat split; try assumption.
+  - rewrite Hd. apply strict_parse_ser; assumption.
+  - rewrite Hd, Hi. apply strip_ser; assumption.
 Qed.
